@@ -178,7 +178,15 @@ func TestVerifC13LoaderValues(t *testing.T) {
 			case r.portsReached:
 				verdict = 0
 			}
-			c.Coq = vfApp("C13.CValDoc", vfZ(int64(ver)), c13kObj(dec), c13vOracles(dec), vfBool(portsOwn), vfBool(lone), vfZ(int64(verdict)))
+			// the certificate pair is the same long text in every document with
+			// encryption on: printed once per shard as a shared definition
+			tree := c13kObj(dec)
+			for _, long := range []string{configmigrate.VerifC13Cert, configmigrate.VerifC13Key} {
+				if lit := c13kStr(long); strings.Contains(tree, lit) {
+					tree = strings.ReplaceAll(tree, lit, vfShare(&c.Defs, "c13v_pem", lit))
+				}
+			}
+			c.Coq = vfApp("C13.CValDoc", vfZ(int64(ver)), tree, c13vOracles(dec), vfBool(portsOwn), vfBool(lone), vfZ(int64(verdict)))
 		} else {
 			c.Coq = vfApp("C13.CLoader", vfBool(c.MonitorOK))
 		}
